@@ -72,6 +72,12 @@ CHECKS["C03"] = dict(
     note="Quick tier: one class per (index, size, layering) = 105 classes + 8 clusters; thorough: all 1260 classes. Open finding: layered spheres with real indices at x ~ 1e-3 (precision loss).",
     ref="5 C03")
 
+CHECKS["C04"] = dict(
+    technique="TLA+ state-merging spec Units.tla (group generated by Scale(k) and NormIndex, VIEW = group element) model-checked by TLC; edge cover of the dumped graph applied to concrete requests for every theory and compared with the untransformed request",
+    text="TLC enumerates every path of length <= 2-3 over Scale(k), k in -4..4 for bases 10 and 2 (8 decades) and the index normalisation; the edge cover is applied to 13 concrete requests (Mie, absorbing and layered Mie, Multisphere, T-matrix spheroid/cylinder with absorption, MieLens, AberratedMieLens, Lens(Mie), Lens(Tmatrix); grid and point detectors; hologram, field, intensity, scattering matrix, cross sections) by transforming every length / index of the request step by step along the path; results must equal the identity element's (1e-9; 1e-12 for powers of two), cross sections scale with base^(2k); Multisphere cluster cross sections incl. the asymmetry parameter at 1e-4 and under index normalisation.",
+    note="Quick tier samples 30 edges per request (14 for lens wrappers) plus the extremes; thorough runs the complete edge cover.",
+    ref="5 C04")
+
 NOT_APPLICABLE = []
 
 
